@@ -118,7 +118,8 @@ package jd
 //@ contract verifV1RoundTrip
 //@   bounded
 //@   requires validNode(a) && validNode(b) && verifV1Domain(a, b, metadata)
-//@   ensures_bounded ret0 == ""
+//@   ensures_bounded !verifV1SameMemberTwice(a, b, metadata) ==> ret0 == ""
+//@   ensures_bounded verifV1SameMemberTwice(a, b, metadata) ==> ret0 == ""
 //@   carries C17
 
 //@ contract verifV1Patch
@@ -140,7 +141,8 @@ package jd
 //@   universe b verifRandB(TIER)
 //@   zip a b
 //@   requires validNode(a) && validNode(b) && verifV1Domain(a, b, metadata)
-//@   ensures_bounded ret0 == ""
+//@   ensures_bounded !verifV1SameMemberTwice(a, b, metadata) ==> ret0 == ""
+//@   ensures_bounded verifV1SameMemberTwice(a, b, metadata) ==> ret0 == ""
 //@   carries C17
 
 //@ contract verifV1RandPatch
